@@ -58,11 +58,16 @@ def upd_inputs(tier, rng):
                      "src": mk_src(rng, k, N, ["random", "ramp", "random", "sparse"][i % 4]), "order": order})
     return recs
 
-def run_family(pid, tier, kind, entries_rule):
-    v = Verdict(pid, tier)
+MEMORY_KINDS = ("fault", "write-outside-destination", "write-outside-source", "source-modified")
+
+def run_family(pid, tier, kind, entries_rule, v=None, memory_only=False):
+    own = v is None
+    if own: v = Verdict(pid, tier)
     rng = random.Random(seed() * 7919 + (3 if kind == "enc" else 13))
-    wd = workdir(pid.lower())
+    wd = workdir(pid.lower() + kind)
     recs = enc_inputs(tier, rng) if kind == "enc" else upd_inputs(tier, rng)
+    if memory_only:      # C05: a reduced vector set; only accesses outside the declared buffers are reported
+        recs = [r for i, r in enumerate(recs) if i % 3 == 0 or r["rows"] in (5, 6, 7, 13)][:6]
     if kind == "upd":   # constant multiply (gf_vect_mul*) belongs to C13
         for i, c in enumerate([0, 1, 2, 29, 0x8e, 255] + ([rng.randrange(256) for _ in range(10)] if tier == "thorough" else [])):
             n = 32 * (12 + i)
@@ -100,12 +105,16 @@ def run_family(pid, tier, kind, entries_rule):
     summ = [o for o in out if o["e"] == "summary"][0]
     for m in out:
         if m["e"] != "mismatch": continue
+        if memory_only and m["what"] not in MEMORY_KINDS: continue
         key = "%s_%s:%s" % (m["entry"], m["isa"], m["what"])
         v.violation(key, "%s (%s) %s: vector %d len=%d placement=%d off=%d row=%d pos=%d" %
                     (m["entry"], m["isa"], m["what"], m["vec"], m["len"], m["placement"], m["off"], m["row"], m["pos"]),
                     {"mismatch": m, "vector_input": ([x for x in recs if x["id"] == m["vec"]] or [None])[0], "seed": seed(), "tier": tier})
-    if summ["mismatches"] > 40:
+    if summ["mismatches"] > 40 and not memory_only:
         v.violation("many", "%d mismatches in total" % summ["mismatches"], {"seed": seed()})
+    if not own:
+        cleanup(wd)
+        return {"calls": summ["calls"], "faults": summ["faults"], "entries": sum(1 for a in summ["entries"].values() for c in a if c > 0)}
     ent = summ["entries"]
     names = (["ec_encode_data", "gf_vect_dot_prod"] + ["gf_%dvect_dot_prod" % n for n in range(2, 7)] + ["-"] +
              ["ec_encode_data_update", "gf_vect_mad"] + ["gf_%dvect_mad" % n for n in range(2, 7)] + ["-"])
